@@ -33,7 +33,7 @@ func checkC12(r *Report, p *Program) {
 	oneWritePerChild(r, p, "R12.13")
 	resultKeptOnSuccess(r, p, "R12.14", 1)
 	siblingStepsIndependent(r, p, "R12.15")
-	retriesReallyRetry(r, p, "R12.16", 2)
+	retriesReallyRetry(r, p, "R12.16", 1)
 }
 
 func allowedFor(s engine.Sink, under map[*ssa.Function]bool, releasers map[*ssa.Function]bool) []string {
@@ -408,7 +408,17 @@ func r12_4(r *Report, p *Program) {
 				}
 				if ci, isC := in.(ssa.CallInstruction); isC {
 					if g := engine.StaticFn(ci.Common()); g != nil && rg.site[g].Fn != nil {
-						return true // continues in another piece of the split function
+						// continues in another piece of the split function — unless that piece only computes
+						// (no body read, decoding, cache adjustment or status gate in it or below it)
+						for h := range p.CG().ReachSet(g) {
+							for _, hb := range h.Blocks {
+								for _, hin := range hb.Instrs {
+									if isCallTo(hin, "io.ReadAll", "json.UnmarshalStrict", "json.Unmarshal", ".adjustResponse", ".isStatusSupported") {
+										return true
+									}
+								}
+							}
+						}
 					}
 				}
 				rt, isR := in.(*ssa.Return)
